@@ -226,6 +226,21 @@ def _functions(pkg, f):
     return out
 
 
+def _exempt_by_role(f, qual, fn, it, how):
+    """The same exemptions as EXEMPT, recognised by what the local IS rather than by what it is called."""
+    if not isinstance(it, ast.Name):
+        return None
+    assigns = [n.value for n in ast.walk(fn) if isinstance(n, ast.Assign) and any(isinstance(t, ast.Name) and t.id == it.id for t in n.targets)]
+    if (f, qual) == (NF, "Network.grains") and len(assigns) == 1 and ast.unparse(assigns[0]) == "self.grain_groups":
+        return EXEMPT[(NF, "Network.grains", "grain_groups")]
+    if (f, qual) == ("naunet/reactions/reaction.py", "Reaction.grain_group") and how == "iter()":
+        # the single-element guarantee: `if len(<it>) > 1: raise` dominates the use
+        for n in ast.walk(fn):
+            if isinstance(n, ast.If) and ast.unparse(n.test).replace(" ", "") == f"len({it.id})>1" and n.body and isinstance(n.body[0], ast.Raise):
+                return EXEMPT[("naunet/reactions/reaction.py", "Reaction.grain_group", "groups")]
+    return None
+
+
 def _r1(ctx, pkg):
     # the rule must fire on the positive fixture
     fx = ast.parse(FIXTURE).body[0]
@@ -245,7 +260,7 @@ def _r1(ctx, pkg):
             for node, it, how in unordered_iterations(fn, typer):
                 src = " ".join(ast.unparse(it).split())
                 key = f"{qual}:{how}:{src[:60]}"
-                why = EXEMPT.get((f, qual, src))
+                why = EXEMPT.get((f, qual, src)) or _exempt_by_role(f, qual, fn, it, how)
                 if why:
                     ctx.ok("R1", key, (f, node.lineno), f"exempt: {why}")
                 else:
